@@ -121,6 +121,42 @@ def run(ctx):
         if got != want_s:
             ctx.violation('published vector %s' % sid, {'server_id': sid, 'impl': got, 'published': want_s},
                           key={'vector': sid})
+    # ---- the string that really reaches AuthenticationToken.join, for SEVERAL logins to the same server
+    # (same server id, same key) in one process: each login has its own secret, hence its own hash
+    import simnet
+    from refserver import RefServer
+    import minecraft.networking.connection as C
+    for sid in ('', 'srv-é', 'a1b2c3'):
+        joins = []
+
+        class Tok:
+            class profile:
+                name = 'Prof'
+
+            def join(self, server_id):
+                joins.append(server_id)
+                return True
+        expected = []
+        for conn_no in range(2):
+            cfg = {'version': 757, 'rsa': '1024', 'script': []}
+            with simnet.Net(lambda s_: RefServer(s_, cfg)) as net:
+                conn = C.Connection('h', 1, auth_token=Tok(), allowed_versions={757}, handle_exception=lambda e, i: None)
+                for k in range(2):
+                    cfg['script'] = [('encrypt', sid, b'vt%d' % k), ('success',)]
+                    conn.connect()
+                    net.run_threads()
+                    srv = cfg['servers'][-1]
+                    if srv.secret is not None:
+                        expected.append(java_hex(hashlib.sha1(sid.encode('utf-8') + srv.secret + srv.key['der']).digest()))
+                    conn.disconnect()
+                    net.run_threads()
+        ctx.case(('join-sequence', sid))
+        if joins != expected or len(expected) != 4:
+            bad_at = next((i for i, (a, b) in enumerate(zip(joins, expected)) if a != b), min(len(joins), len(expected)))
+            ctx.violation('four logins (two Connection objects x two logins) to server id %r: the hash passed to join at login #%d is %s, '
+                          'Java would compute %s' % (sid, bad_at + 1, joins[bad_at] if bad_at < len(joins) else None,
+                                                     expected[bad_at] if bad_at < len(expected) else None),
+                          {'server_id': sid, 'joins': joins, 'expected': expected}, key={'kind': 'join-sequence', 'server_id': sid})
     # raw digests through the formatting function (every first byte, random tails, edge patterns)
     digs = [bytes([b]) + bytes(rng.randrange(256) for _ in range(19)) for b in range(256)]
     digs += [bytes(20), b'\xff' * 20, b'\x80' + bytes(19), b'\x7f' + b'\xff' * 19, bytes(19) + b'\x01',
